@@ -21,7 +21,7 @@ TRUSTED = c03.TRUSTED + [
     "numpy's reductions along an axis (np.sum, np.mean, np.min, np.max and the nan-variants) are modelled by MapModel.reduce (all-NaN column: nansum -> 0, the others -> NaN)",
 ]
 ASSUMPTIONS = [
-    "cells are pairwise interior-disjoint cubes; cell values are finite",
+    "cells are pairwise interior-disjoint cubes; cell values may be NaN in 40% of the cases (a NaN value is a missing sample for the nan-reductions and propagates through the others); a pixel whose column has a sample on a cell face while cells of the layer hold NaN is not asserted (the column may or may not have taken the NaN-valued neighbour)",
     "dz > 0 and at least half a pixel when no depth resolution is given (a depth count of 0 makes the code divide by zero: outside the claim, counted)",
     "a sample exactly on a cell face may take the value of any touching cell: the pixel must then lie between the reductions of the per-sample minimum and maximum (all eight reductions are monotone in every sample)",
     "tolerant lane: pixels whose column has a sample within 1e-9 cell sizes of a face are counted as near ties, not asserted",
@@ -87,9 +87,10 @@ def gen_thick(ctx, n):
         mesh = {"ndim": nd, "den": c["den"], "box": {"side": c["gen"]["box_side"]}}
         sref = c["gen"]["sref"]
         exact = c["gen"]["exact_wanted"]
-        for lay in c["layers"]:           # thick maps: finite cell values only (ASSUMPTIONS)
-            if lay["kind"] == "scalar":
-                lay["vals"] = [0.5 if v is None else v for v in lay["vals"]]
+        if r.random() < 0.6:
+            for lay in c["layers"]:           # most thick maps: finite cell values; the others keep their NaN cell values
+                if lay["kind"] == "scalar":
+                    lay["vals"] = [0.5 if v is None else v for v in lay["vals"]]
         if c["direction"]["kind"] == "str":
             c["direction"] = {"kind": "vec", "v": [1, 2, 2]}
         # smaller images: the oracle samples nx * ny * nz points
